@@ -68,11 +68,15 @@ def mask_structure(bp, input_nums):
 def compile_with_inputs(stmts, inputs, opts):
     """Compile under placeholder valuation 1 and 2, check that the circuit is not specialised
     on the input values.  Returns (circuit, Inputs, specialised: bool)."""
-    s1, m1 = with_placeholders(stmts, inputs, PLACEHOLDERS_1)
+    opts = dict(opts)
+    declared = opts.pop("declared", None)
+    s1, m1 = with_placeholders(stmts, inputs, declared or PLACEHOLDERS_1)
     bp1 = harness.compile_src(lang.show_prog(s1), **opts)
     c1 = Circuit(bp1)
     in1 = observe.Inputs(c1, inputs, m1)
-    if not inputs:
+    if not inputs or declared:
+        # "declared": the blueprint compiled for THESE declared input values is explored as it is (a player changes
+        # the constants after pasting; the property has to hold for the blueprint they got)
         return c1, in1, False
     s2, m2 = with_placeholders(stmts, inputs, PLACEHOLDERS_2)
     bp2 = harness.compile_src(lang.show_prog(s2), **opts)
